@@ -199,7 +199,12 @@ def gen_case(rng: random.Random, tier: str):
             alias_ops.append({"op": "dangling", "pos": pos, "hops": rng.randint(0, 3), "use": rng.choice(["resolve", "attr", "field"])})
         else:
             alias_ops.append({"op": "long_chain", "pos": pos, "len": rng.randint(2, 12)})
+    for _ in range(rng.randint(0, 2)):
+        # an unrelated definition loaded with OTHER parser options between the groups: options belong to one load() call
+        alias_ops.append({"op": "foreign_load", "pos": rng.randint(0, len(cuts) + 1), "align": rng.random() < 0.5, "compiled": rng.random() < 0.5,
+                          "n": rng.randint(1, 3)})
     return {"frags": frags, "order": order, "cuts": cuts, "noise": noise, "alias_ops": alias_ops, "enum_member_newline": enum_nl,
+            "omit_default_kwargs": [rng.random() < 0.5 for _ in range(len(cuts) + 1)],
             "data_seed": rng.getrandbits(32), "cfg": {"endian": rng.choice("<>"), "compiled": rng.random() < 0.5, "align": rng.random() < 0.3}}
 
 
@@ -305,7 +310,7 @@ def run_history(case, perturbed, stats):
     loaded = set()
 
     def alias_ops_at(pos):
-        for op in case["alias_ops"]:
+        for opi, op in enumerate(case["alias_ops"]):
             if op["pos"] != pos:
                 continue
             k = op["op"]
@@ -337,8 +342,13 @@ def run_history(case, perturbed, stats):
                         raise Violation("alias", "other_target_accepted", f"{text!r} silently re-bound an existing alias to another type")
                     if dict(cs.typedefs) != before:
                         raise Violation("alias", "table_changed_by_rejected_redeclaration", text)
+            elif k == "foreign_load":
+                body = " ".join(f"uint{8 * (1 << j)} q{j};" for j in range(op["n"]))
+                nmz = f"Zz{pos}_{opi}"
+                cs.load(f"struct {nmz} {{ uint8 lead; {body} }};", compiled=op["compiled"], align=op["align"])
+                stats.count("probe.foreign_load_with_other_options")
             elif k in ("cycle", "dangling", "long_chain"):
-                base = f"zz{pos}_{case['alias_ops'].index(op)}_"
+                base = f"zz{pos}_{opi}_"
                 if k == "cycle":
                     names = [base + str(i) for i in range(op["len"])]
                     for i, nme in enumerate(names):
@@ -392,7 +402,16 @@ def run_history(case, perturbed, stats):
     for gi, g in enumerate(groups):
         alias_ops_at(gi)
         text = "".join(render_frag(frags[i], i, case["noise"]) for i in g)
-        cs.load(text, **kw)
+        kwg = dict(kw)
+        omit = case.get("omit_default_kwargs") or []
+        if gi < len(omit) and omit[gi]:
+            # the documented defaults are compiled=True, align=False: leaving a default out must mean the same
+            if kwg["compiled"] is True:
+                del kwg["compiled"]
+            if kwg["align"] is False:
+                del kwg["align"]
+            stats.count("probe.load_with_default_kwargs_omitted")
+        cs.load(text, **kwg)
         loaded.update(g)
         stats.count("steps")
     alias_ops_at(len(groups))
